@@ -640,7 +640,7 @@ def run_behaviour(ctx, beh, rows, sv0, root, real="user", sigprefix="replay", sa
             bad = coherent(drv, got)
             if bad is not None:
                 ctx.mismatch(abase + "/cache_coherent", dict(case, pos=pos),
-                             "after a transition that aborted at target evaluation %d (%s raised; %s) the cached %s is not the "
+                             "after a transition that aborted at target evaluation %d (%s raised; %s) the cached value %s is not the "
                              "evaluation at the sampler's current point %s" % (a["k"], a["ev"], outcome, bad[0], got["x"].tolist()),
                              expected=bad[2], observed=bad[1])
                 return done
@@ -674,7 +674,7 @@ def run_behaviour(ctx, beh, rows, sv0, root, real="user", sigprefix="replay", sa
                     bad = coherent(drv, got)
                     if bad is not None:
                         ctx.mismatch(base + "/next/cache_coherent", dict(case, pos=pos + 1),
-                                     "after the transition following an aborted one the cached %s is not the evaluation at the "
+                                     "after the transition following an aborted one the cached value %s is not the evaluation at the "
                                      "current point" % bad[0], expected=bad[2], observed=bad[1])
                     done += 1
                 return done
